@@ -3,6 +3,8 @@
 #  (B) Gen_SDict.cfg      : TLC prints every edge; each is replayed on the real classes
 #  (C) Trace_SDict.tla    : seeded random histories of the real classes judged by TLC
 import json
+import sys
+import types
 import random
 
 from core import (Report, Work, run_tlc, use_repo, seed, MachineryError)
@@ -156,7 +158,16 @@ class Binding(object):
                     items = self.SortableDict(items)
                 elif form == 'meta':
                     items = self.MetadataObject(items)
+                elif form == 'proxy':
+                    items = types.MappingProxyType(dict(items))
+                elif form == 'iter':
+                    items = iter(items)
                 r = m.extend(items, replace=o['replace'])
+                return ['None'] if r is None else ['unexpected_return']
+            if n == 'add_bad_index':
+                # an index list.insert() refuses: sys.maxsize pushed one further by after=True, or a float
+                kw = {'index': sys.maxsize, 'after': True} if o['kind'] == 'huge' else {'index': 1.0, 'after': bool(o['k'] % 2)}
+                r = m.add_item(key_of(o['k']), self.val(o['v']), replace=o['replace'], **kw)
                 return ['None'] if r is None else ['unexpected_return']
             raise MachineryError('unknown op %r' % n)
         except Refused:
@@ -242,7 +253,8 @@ def replay_edges(rep, b, edges, classes):
                 continue
             forms = ['list']
             if o['name'] in ('extend', 'ctor') and len(set(k for k, _ in o['items'])) == len(o['items']):
-                forms = ['list', 'dict', 'sdict', 'meta'] if o['name'] == 'extend' else ['list', 'dict']
+                forms = ['list', 'dict', 'sdict', 'meta', 'proxy', 'iter'] if o['name'] == 'extend' else \
+                    ['list', 'dict', 'sdict', 'meta', 'proxy']
             for form in forms:
                 o2 = dict(o)
                 if o['name'] in ('extend', 'ctor'):
@@ -273,7 +285,9 @@ def replay_edges(rep, b, edges, classes):
 def construct(b, cls, o):
     """the constructor event: the map, a twin built from the same initial object, and that object"""
     items = [(key_of(k), b.val(v)) for k, v in o['items']]
-    src = dict(items) if o['form'] == 'dict' else b.SortableDict(items) if o['form'] == 'sdict' else list(items)
+    src = dict(items) if o['form'] == 'dict' else b.SortableDict(items) if o['form'] == 'sdict' else \
+        b.MetadataObject(items) if o['form'] == 'meta' else types.MappingProxyType(dict(items)) if o['form'] == 'proxy' else \
+        list(items)
     m = cls(src)
     twin = cls(src)
     return m, twin, src
@@ -309,7 +323,7 @@ def random_history(rng, b, cls, nkeys, length, ctor=None):
     else:
         m = b.new(cls)
     meta = cls is b.MetadataObject
-    names = ['add_item'] * 6 + ['setitem'] * 3 + ['delitem', 'pop', 'pop_default', 'pop_at', 'popitem',
+    names = ['add_item'] * 6 + ['add_bad_index'] + ['setitem'] * 3 + ['delitem', 'pop', 'pop_default', 'pop_at', 'popitem',
                                                   'sort', 'sort_by', 'sort_by', 'reverse', 'setdefault']
     if meta:
         names += ['append', 'append_default', 'extend', 'extend']
@@ -335,6 +349,8 @@ def random_history(rng, b, cls, nkeys, length, ctor=None):
             if rng.random() < 0.04:
                 o['index'] = rng.randint(0, 3)
                 o['pos'] = K()
+        elif n == 'add_bad_index':
+            o.update(k=K(), v=V(), kind=rng.choice(['huge', 'float']), replace=rng.random() < 0.8)
         elif n in ('setitem', 'setdefault', 'pop_default'):
             o.update(k=K(), v=V())
         elif n in ('delitem', 'pop'):
@@ -350,7 +366,7 @@ def random_history(rng, b, cls, nkeys, length, ctor=None):
         elif n == 'extend':
             o.update(items=[[K(), V()] for _ in range(rng.randint(0, 3))], replace=rng.random() < 0.7)
             if len(set(k for k, _ in o['items'])) == len(o['items']):
-                o['form'] = rng.choice(['list', 'dict', 'sdict', 'meta'])
+                o['form'] = rng.choice(['list', 'dict', 'sdict', 'meta', 'proxy', 'iter'])
         if n == 'clear' and rng.random() < 0.9:
             continue
         res = b.apply(m, o)
@@ -462,7 +478,7 @@ def run(tier):
         for i in range(nh):
             cname, bi, cls = classes[i % 3]
             # every fourth history of the two plain classes starts from the constructor with an initial object
-            ctor = ['dict', 'list'][(i // 4) % 2] if i % 4 == 1 and i % 3 != 2 else None
+            ctor = ['dict', 'list', 'sdict', 'meta', 'proxy'][(i // 4) % 5] if i % 4 == 1 and i % 3 != 2 else None
             traces.append(random_history(rng, bi, cls, nk, ln, ctor=ctor))
         verdict = judge_traces(rep, work, traces, 'random')
         rep.traces += len(traces)
